@@ -42,7 +42,11 @@ func runRebase(r *core.Run) {
 		r.BrokenAnchor("buffer.StreamLexer methods")
 		return
 	}
-	// 1. infer the fields living in the coordinate system of z.buf
+	// 1. infer the fields living in the coordinate system of the buffer (the []byte field)
+	bufField := "buf"
+	if sr, _ := discoverStreamRoles(r); sr != nil && sr.buf != "" {
+		bufField = sr.buf
+	}
 	coord := map[string]bool{}
 	fieldOf := func(atom, z string) (string, bool) {
 		if strings.HasPrefix(atom, z+".") && !strings.Contains(atom[len(z)+1:], ".") && !strings.Contains(atom, "(") {
@@ -66,13 +70,13 @@ func runRebase(r *core.Run) {
 			for _, in := range b.Instrs {
 				switch x := in.(type) {
 				case *ssa.Slice:
-					if canon(x.X) == z+".buf" {
+					if canon(x.X) == z+"."+bufField {
 						addAtoms(x.Low)
 						addAtoms(x.High)
 						addAtoms(x.Max)
 					}
 				case *ssa.IndexAddr:
-					if canon(x.X) == z+".buf" {
+					if canon(x.X) == z+"."+bufField {
 						addAtoms(x.Index)
 					}
 				}
@@ -112,8 +116,8 @@ func runRebase(r *core.Run) {
 	sites := 0
 	for _, fn := range fns {
 		z := fn.Params[0].Name()
-		for _, st := range storesToField(fn, z+".buf") {
-			if sl, ok := st.Val.(*ssa.Slice); ok && canon(sl.X) == z+".buf" {
+		for _, st := range storesToField(fn, z+"."+bufField) {
+			if sl, ok := st.Val.(*ssa.Slice); ok && canon(sl.X) == z+"."+bufField {
 				continue // re-slice of the same array keeps the frame
 			}
 			sites++
@@ -259,7 +263,7 @@ func runStreamErr(r *core.Run) {
 			r.Fail("Err reports the stored error unconditionally", ret.Pos(), "the stored error is returned without testing for io.EOF with unread bytes")
 		}
 	}
-	r.Check(nNil == 1 && nErr == 1, "Err has one hiding and one reporting return", fn.Pos(), "", "unexpected number of returns")
+	r.Check(nNil >= 1 && nErr >= 1, "Err has a hiding and a reporting return", fn.Pos(), "", fmt.Sprintf("Err has %d returns of nil and %d returns of the stored error: it must be able to do both", nNil, nErr))
 }
 
 func runPoolReuse(r *core.Run) {
